@@ -14,7 +14,9 @@ ServerCases == ForeverCases \cup {[kind |-> "server", beh |-> b, target |-> t, k
                   b \in {"wrong", "status404", "status500", "page200", "extra", "empty", "short", "fin", "drop",
                         \* framing that lies (Content-Length of 2^62 / 2^63 / 1 MiB too much over the right bytes) or is merely unusual (none, chunked)
                         "clhuge62", "clhuge63", "clplus", "clnone", "chunked"}, t \in {"header1", "header2", "chunks"}}
-PinCases == {[kind |-> "pin", pin |-> p] : p \in {"exact", "wrong_last", "wrong_first", "prefix32", "prefix1", "empty"}}
+\* how: what else holds the chunks - nothing (all are fetched), a seed file equal to the source, the prior output equal to the source (--seed-output):
+\* the clone proceeds only if the checksums are equal, whether or not anything has to be fetched
+PinCases == {[kind |-> "pin", pin |-> p, how |-> h] : p \in {"exact", "wrong_last", "wrong_first", "prefix32", "prefix1", "empty"}, h \in {"plain", "seed_full", "inplace_full"}}
 Post == /\ TLCGet("stats").diameter >= 0
         /\ ndJsonSerialize(IOEnv.GEN_OUT, SetToSeq({[kind |-> "class", f |-> i] : i \in Inputs}) \o SetToSeq(ByteCases) \o SetToSeq(ServerCases)
                                            \o SetToSeq(PinCases) \o <<[kind |-> "random", count |-> RandomCount]>>)
